@@ -155,11 +155,19 @@ def Frame.pack (f : Frame) (truncated : Bool) (ft : Option FrameType) : UPy Byte
       pure []
   pure (hb ++ optBytes f.insertZone ++ tb ++ ob ++ optBytes f.fecf)
 
-/-- `TransferFrame.set_frame_len_in_header()` -/
-def Frame.setFrameLenInHeader (f : Frame) : Frame :=
+/-- body of `TransferFrame.set_frame_len_in_header()`, with `len` the value `self.len()` returns:
+    for a regular header `ValueError` (header unchanged) when `len - 1 > 0xFFFF`, otherwise the
+    field is set to `len - 1`; nothing to do (and nothing checked) for a truncated header.
+    (C11's frame machine calls this with the length computed from the data field's cached size.) -/
+def Frame.setFrameLenWith (f : Frame) (len : Nat) : UPy Frame :=
   match f.header with
-  | .primary h => { f with header := .primary { h with frameLen := f.len - 1 } }
-  | .truncated _ => f
+  | .primary h =>
+    if len - 1 > 65535 then .error (.py .value)
+    else .ok { f with header := .primary { h with frameLen := len - 1 } }
+  | .truncated _ => .ok f
+
+/-- `TransferFrame.set_frame_len_in_header()`; an error means the frame object is unchanged -/
+def Frame.setFrameLenInHeader (f : Frame) : UPy Frame := f.setFrameLenWith f.len
 
 /-- Managed parameters. `kind` is the class of the object (`FixedFrameProperties` /
     `VarFrameProperties`), `lenParam` its `fixed_len` resp. `truncated_frame_len`; the zone
